@@ -442,9 +442,11 @@ func c08online(c *rig.Ctx) {
 	phase(srv, roundsA, false)
 	rig.Must(srv.Stop())
 	dbfactory.CloseAllLocalDatabases()
-	dprocedures.UseSessionAwareSafepointController = false
 	srv, err = sqlrig.Start(dataDir)
 	rig.Must(err)
+	// (engine start-up forces the session-aware controller when auto-GC is configured, so the switch comes after it;
+	// no statement is running yet)
+	dprocedures.UseSessionAwareSafepointController = false
 	verify(srv, "after the first restart", rig.Mono())
 	phase(srv, roundsB, true)
 	rig.Must(srv.Stop())
